@@ -95,7 +95,7 @@ func execute(p *promref.Program, sched []promref.Step, cfg runCfg, pc progCache)
 	}
 	o.h = h
 	r := h.r
-	opts := promref.PrintOpts{NoNative: cfg.NoNative}
+	opts := promref.PrintOpts{NoNative: cfg.NoNative, Guard: p.HasThrowingCtor()}
 	// definitions for the function-entry variants (no job is queued by them)
 	if cfg.Entry == EntryCallable || cfg.Entry == EntryTrigger {
 		src := ""
